@@ -220,6 +220,11 @@ C13_2D(tk) ==
     legacy_pairwise_t_stats |-> [sel \in 1..Len(CS) |-> PwTMatLegacy(tk, RS, CS, sel)],
     pairwise_p_vals  |-> [sel \in 1..Len(CS) |-> PwPMat(tk, RS, CS, sel)],
     pairwise_indices |-> PwIdx(tk, RS, CS) ]
+C13_2D_OV(tk) ==
+  LET RS == RE(tk)  CS == CE(tk) IN
+  [ pairwise_t_stats |-> [sel \in 1..Len(CS) |-> PwOvTMat(tk, RS, CS, sel)],
+    pairwise_p_vals  |-> [sel \in 1..Len(CS) |-> PwOvPMat(tk, RS, CS, sel)],
+    pairwise_indices |-> PwOvIdx(tk, RS, CS) ]
 C13_2D_Y(tk) ==
   LET RS == RE(tk)  CS == CE(tk) IN
   [ pairwise_means_t_stats |-> [sel \in 1..Len(CS) |-> PwMeansTMat(tk, RS, CS, sel)],
@@ -287,7 +292,8 @@ Part(tk) ==
     [] Family = "c08" /\ ND > 1 -> C08_2D(tk)
     [] Family = "c20" /\ ND = 1 -> C20_1D_Y(tk)
     [] Family = "c20" /\ ND > 1 -> IF HasY THEN C20_2D(tk) @@ C20_2D_Y(tk) ELSE C20_2D(tk)
-    [] Family = "c13" /\ ND > 1 -> IF HasY THEN C13_2D_Y(tk) ELSE C13_2D(tk)
+    [] Family = "c13" /\ ND > 1 -> IF HasY THEN C13_2D_Y(tk)
+                                   ELSE IF Overlaps THEN C13_2D_OV(tk) ELSE C13_2D(tk)
     [] Family = "c06" /\ ND = 1 -> C01_1D(tk) @@ C02_1D(tk) @@ C03_1D(tk) @@ C11_1D(tk)
     [] Family = "c06" /\ ND > 1 -> IF HasY THEN C06_2D(tk) @@ C01_2D_Y(tk) ELSE C06_2D(tk)
     [] Family = "c04" /\ ND = 1 -> IF HasY THEN C04_1D(tk) @@ C01_1D_Y(tk) ELSE C04_1D(tk)
@@ -308,6 +314,7 @@ Out ==
     ci    |-> ci,
     flat  |-> Flat,
     flaty |-> IF HasY THEN FlatY ELSE [none |-> 0],
+    flatov |-> IF Overlaps THEN [ov |-> FlatOv(FALSE), vov |-> FlatOv(TRUE)] ELSE [none |-> 0],
     aux   |-> IF ND = 0 THEN << >> ELSE [t \in 1..NParts |-> Aux(TableEls[t])],
     cube  |-> IF Family = "c01" THEN (IF HasY THEN CubeLevel @@ CubeLevelY ELSE CubeLevel)
               ELSE [none |-> 0],
